@@ -135,19 +135,33 @@ def hiddenEvs (timeouts : Bool) (s : St) : List Ev :=
   [.restart, .openPersist, .trigger, .backoffAbort, .discard, .dgExit, .tdFlush, .tdSnap, .tdWaited false, .closeQueue,
    .tdDrained false, .stopStream, .join]
   ++ (if timeouts then [.tdWaited true, .tdDrained true] else [])
-  ++ (List.range s.gens.length).map .callback
+  -- Callbacks. Those of FAILED generations only hand an error to `errs`: always explored. Those of
+  -- committed generations release acks; until the delivery queue is closed only three things can tell
+  -- whether one has run: a delivery (explored on demand at `S:` / `N`, see `withCallbacks`), Teardown's
+  -- wait on the generation it snapshotted, and `closeQueue` itself (run before: delivered, after:
+  -- dropped). So before the close they are explored only where that matters: for the waited-on
+  -- generation while Teardown waits, and in the statement right before `closeQueue`.
+  ++ (List.range s.gens.length).filterMap (fun i =>
+        match s.gens[i]? with
+        | some g =>
+          if g.stat = .failed then some (.callback i)
+          else if s.closed then some (.callback i)
+          else match s.td with
+            | .waited => some (.callback i)
+            | .waiting og => if og = some i then some (.callback i) else none
+            | _ => none
+        | none => none)
   -- the node reads `errs` only while the pipeline runs
   ++ (if s.td = .idle then .errReadS :: (List.range s.gens.length).map .errReadP else [])
 
 /-- Partial-order reduction. Hidden events whose only effect is bookkeeping no later guard can
 tell apart are taken eagerly (each is a real `step`, so acceptance still exhibits a model run):
 callbacks that drain nothing (`seq ≤ durable`, or Open's callback), callbacks of committed
-generations while the delivery queue cannot be closed yet (before `closeQueue` a later run of the
-same callback is indistinguishable from an earlier one: the states reached by delaying it past
-`closeQueue` are also reached from the branch where the bounded wait had already expired when the
-commit was observed), and the error hand-off of
+generations once the delivery queue is closed (they can only drop: nothing observable depends on
+when, and running them only enables the waits on `callbacksDone`) and the error hand-off of
 failed generations other than the latest (only the latest generation's `callbacksDone` is ever
-waited on once it exists). -/
+waited on once it exists). Callbacks that DO release acks are never taken eagerly while the queue is
+open: whether they run before or after `closeQueue` decides between delivery and drop (see `pruneLazy`). -/
 def noopCb (s : St) (g : Gen) : Bool :=
   match g.cb with
   | none => true
@@ -159,7 +173,7 @@ def normEvs (s : St) : List Ev :=
     match s.gens[i]? with
     | none => []
     | some g =>
-      if g.stat = .ok ∧ g.cbSt = .notRun ∧ (noopCb s g = true ∨ 7 ≤ s.td.rank) then [.callback i]
+      if g.stat = .ok ∧ g.cbSt = .notRun ∧ (noopCb s g = true ∨ s.closed = true) then [.callback i]
       else if g.stat = .failed ∧ i + 1 < n ∧ g.cbSt = .notRun then [.callback i, .errReadP i]
       else if g.stat = .failed ∧ i + 1 < n ∧ g.cbSt = .blocked then [.errReadP i]
       else if g.stat = .failed ∧ i + 1 = n ∧ g.cbSt = .notRun ∧ s.td ≠ .idle then [.callback i]
@@ -193,6 +207,19 @@ def closeStates (t : TCfg) (ss : List DSt) : List DSt :=
   let init := ss.foldl (fun (acc : DSet) s => (acc.insert s).1) {}
   (closure t.cfg t.timeouts 100000 init.elems init).elems
 
+/-- on-demand exploration of the releasing callbacks while the delivery queue is open: the state itself and
+the states after the callback of one committed generation (a later generation's callback subsumes
+the earlier ones: `durable` becomes its sequence number) -/
+def withCallbacks (c : Cfg) (d : DSt) : List DSt :=
+  if !d.s.closed then
+    d :: (List.range d.s.gens.length).filterMap fun i =>
+      match d.s.gens[i]? with
+      | some g => if g.stat = .ok ∧ g.cbSt = .notRun then
+                    (step c d.s (.callback i)).map fun s' => norm c { d with s := s' }
+                  else none
+      | none => none
+  else [d]
+
 def onS (d : DSt) (r : Option St) : List DSt := r.toList.map fun s' => { d with s := s' }
 
 /-- model events an observation may correspond to, with a check on the resulting state -/
@@ -201,8 +228,9 @@ def matchObs (t : TCfg) (d : DSt) : Obs → List DSt
   | .ackRet => if d.inflight.isNone ∧ ¬ d.s.mustTrigger then [d] else []
   | .commit pos _ => (onS d (step t.cfg d.s (.flushRes .ok))).filter (fun d' => d'.s.store.pos == pos)
   | .flushFail r => onS d (step t.cfg d.s (.flushRes r))
-  | .sack ps => (onS d (step t.cfg d.s (.deliver true))).filter (fun d' => (d'.s.delivered.getLast?.map (·.ps)) == some ps)
-  | .sendFail => onS d (step t.cfg d.s (.deliver false))
+  | .sack ps => (withCallbacks t.cfg d).flatMap fun d =>
+      (onS d (step t.cfg d.s (.deliver true))).filter (fun d' => (d'.s.delivered.getLast?.map (·.ps)) == some ps)
+  | .sendFail => (withCallbacks t.cfg d).flatMap fun d => onS d (step t.cfg d.s (.deliver false))
   | .tdBegin => onS d (step t.cfg d.s .tdBegin)
   | .pluginTd ok => onS d (step t.cfg d.s (.pluginTeardown ok))
   | .tdRet ok => if d.s.td = .done ok then [d] else []
@@ -219,12 +247,39 @@ def matchObs (t : TCfg) (d : DSt) : Obs → List DSt
   | .reopen pos =>
     if d.awaitO ∧ d.s.alive ∧ d.s.opened.getLast? = some pos then [{ d with awaitO := false }] else []
 
+/-- the state as if no releasing callback had run yet: undelivered acks all pending, `durable` 0,
+callbacks of committed generations not run -/
+def lazyProj (d : DSt) : DSt :=
+  { d with s := { d.s with pending := d.s.deferred ++ d.s.pending, deferred := [], durable := 0,
+                           gens := d.s.gens.map fun g => if g.stat = .ok then { g with cbSt := .notRun } else g } }
+
+/-- Subsumption. While the delivery queue is not closed, a state in which fewer acks have been moved
+from `pending` to the delivery queue reaches, by hidden callback steps alone, every state that
+differs from it only in having moved more (the generation whose callback moved them is committed and
+its callback still outstanding in the former). So of such a family only the least-moved member is
+kept between observations; the closure before the next observation regenerates the others. After
+`closeQueue` the members are genuinely different (delivered vs dropped) and all are kept. -/
+def pruneLazy (ss : List DSt) : List DSt :=
+  let (openQ, closedQ) := ss.partition (fun d => !d.s.closed)
+  let m : Std.HashMap UInt64 (List (DSt × DSt)) := openQ.foldl (fun m d =>
+    let p := lazyProj d
+    let h := dHash p
+    let b := m.getD h []
+    match b.find? (fun e => dEq e.1 p) with
+    | some e =>
+      if d.s.pending.length > e.2.s.pending.length ∨
+         (d.s.pending.length = e.2.s.pending.length ∧ d.s.durable < e.2.s.durable) then
+        m.insert h ((p, d) :: b.filter (fun e' => !dEq e'.1 p))
+      else m
+    | none => m.insert h ((p, d) :: b)) {}
+  closedQ ++ m.fold (fun acc _ b => b.map (·.2) ++ acc) []
+
 def acceptLoop (t : TCfg) : Nat → List DSt → List (String × Obs) → Option (Nat × String)
   | _, _, [] => none
   | k, ss, (tok, o) :: rest =>
     let cl := closeStates t ss
     let next := cl.foldl (fun (acc : DSet) d => (matchObs t d o).foldl (fun a n => (a.insert (norm t.cfg n)).1) acc) {}
-    if next.elems.isEmpty then some (k, tok) else acceptLoop t (k+1) next.elems rest
+    if next.elems.isEmpty then some (k, tok) else acceptLoop t (k+1) (pruneLazy next.elems) rest
 
 def srcackLine (line : String) : String :=
   match line.splitOn ";" with
